@@ -125,15 +125,15 @@ func (a *FuncAnalysis) jointSummaries(fs FactSet) {
 
 // FuncAnalysis is the result of the must-dataflow for one function.
 type FuncAnalysis struct {
-	E     *Engine
-	Fn    *ssa.Function
-	D     *describer
-	In    []FactSet // facts on entry of block i (nil: unreachable)
-	edge  map[[2]int]FactSet
-	feas  map[[2]int]bool
-	depth int
-	entry FactSet
-	derived []Derived
+	E        *Engine
+	Fn       *ssa.Function
+	D        *describer
+	In       []FactSet // facts on entry of block i (nil: unreachable)
+	edge     map[[2]int]FactSet
+	feas     map[[2]int]bool
+	depth    int
+	entry    FactSet
+	derived  []Derived
 	phiDepth int
 }
 
